@@ -6,3 +6,14 @@ package memory
 func (m *Type) VerifState() (sp, frames, closures, stackLen int) {
 	return m.sp, len(m.fp) / 2, len(m.closure), len(m.stack)
 }
+
+// VerifMinStack, when positive, is the least stack size a cloned memory gets,
+// so that a harness can run a program with stacks that never reallocate.
+var VerifMinStack int
+
+func verifMinStack(n int) int {
+	if VerifMinStack > n {
+		return VerifMinStack
+	}
+	return n
+}
